@@ -314,7 +314,8 @@ class G:
         elif k == 8:
             src = "from t\njoin u (t.g == u.g)\ngroup {t.g} (aggregate {n = count this, m = max u.d})\nsort {-n}"
         else:
-            src = "from t\nfilter a != 3\njoin %su (t.g == u.g)\nderive {x1 = t.c + 1}\nfilter (u.id == 3)" % side
+            src = "from t\n%sjoin %su (t.g == u.g)\nderive {x1 = %s}\n%s" % (self.pick(["", "filter a != 3\n", "take 5\n"]), side, self.pick(["t.c + 1", "t.id + u.id"]),
+                                                                         self.pick(["filter (u.id == 3)", "take 2\nfilter (u.a > t.a)", "group {u.id} (take 1)", "sort {u.id}"]))
             tags.add("clash"); tags.add("join_wild")
         post = self.pick(["", "", "\n" + self.take_txt(), "\naggregate {n = count this}"])
         if post.rstrip().endswith("..") or "take" in src and ".." in src.split("take")[-1].split("\n")[0] and src.split("take")[-1].split("\n")[0].strip().endswith(".."):
